@@ -41,6 +41,10 @@ add("C18", "bounded-exhaustive program x configuration enumeration; every return
     "dxil.Compile is run on every entry point of F1 representatives, F2 trees, micro-programs and the corpus under shader models 6.0/6.2/6.6 and both hash modes; each container is checked against 79 rules (container arithmetic and part bounds, DXBC digest / bypass sentinel, HASH part, program header vs requested stage and shader model, bitstream block nesting/lengths/abbreviations/alignment, module- and function-level operand soundness with rebuilt value numbering, typing and SSA dominance, dx metadata vs PSV0, signatures). An error return is allowed; a second call must return identical bytes.",
     "Trusted base: internal/dxbc (written from format documentation; cross-checked on the corpus against llvm-bcanalyzer and llvm-dis + opt -verify).", "DESIGN.md §3 C18")
 
+add("C19", "exhaustive enumeration of neutral source edits at every token boundary of every seed (depth 1; depth 2 at same/adjacent boundaries in the thorough tier), each edited program compiled by the real pipeline and compared with the unedited one",
+    "For every seed (micro-programs, F1/F2 representatives, corpus files) every trivia insertion of 14 kinds at every token boundary, every template-closer adjacency (`>>`, `>=`, `>>=`) created or split, whitespace removal next to non-merging punctuation, three injective renamings (longer, shorter, reversed lexicographic order) and, for generated seeds, redundant parentheses around every expression node. Oracle: acceptance unchanged; lowered module identical up to names and spans; SPIR-V bytes identical; HLSL/MSL/GLSL text identical (for renamings: identical up to the applied renaming).",
+    "Edits are neutral by the WGSL grammar; the site enumeration uses an independent tokenizer (internal/wgen/tokens.go). Entry-point names and swizzle-like names are never renamed.", "DESIGN.md §3 C19")
+
 NA = {
 }
 for i in range(1, 20):
